@@ -505,6 +505,6 @@ static void finalize(const Plan &plan, EndReason r) {
     (void)plan;
 }
 
-static struct Reg { Reg() { register_family(Family{"ctl", gen, setup, finalize, nullptr, nullptr}); } } reg;
+static struct Reg_ctl { Reg_ctl() { register_family(Family{"ctl", gen, setup, finalize, nullptr, nullptr}); } } reg;
 
 }  // namespace xs
